@@ -70,6 +70,7 @@ structure Tag where
   color : String := ""
   convs : List String := []
   refBy : List String := []   -- sorted set
+  gen : Nat := 0              -- identity of the AddTag call that created the tag (`created`); updates keep it
 deriving Repr, Inhabited, BEq
 
 def Tag.refs (t : Tag) : List String := strSet (t.mainT ++ t.subT)
@@ -80,6 +81,7 @@ structure St where
   files : List (Nat × List Nat) := []     -- content (stream ids) of every open file
   used : List (Nat × Nat) := []           -- lock counts
   next : Nat := 0
+  ngen : Nat := 0                         -- number of tags created so far (source of `Tag.gen`)
   all : Nat := 0                          -- allStreams = {0..all-1}
   queue : List String := []
   merge : Bool := false
@@ -443,7 +445,8 @@ def step (s : St) (e : Ev) (st : Started) : St × Res :=
       let s :=
         match sget s.tags name with
         | some ot =>
-          if ot.defn == snap.defn then
+          -- "don't touch the tag if it was modified, or deleted and added again while the job was running"
+          if ot.defn == snap.defn && ot.gen == snap.gen then
             let t : Tag := { snap with mat := newMatches, unc := [], color := ot.color, convs := ot.convs, refBy := ot.refBy }
             let s := t.convs.foldl (fun (s : St) c => { s with toconv := sins c (union ((sget s.toconv c).getD []) t.mat) s.toconv }) s
             let s := setTag s name t
@@ -485,7 +488,8 @@ def step (s : St) (e : Ev) (st : Started) : St × Res :=
         if !s.convs.contains c then s
         else
           let tags := s.tags.map fun (n, t) =>
-            if t.mfeat &&& fData == 0 && t.sfeat &&& fData == 0 then (n, t)
+            if t.sfeat &&& fData != 0 then (n, if ids.isEmpty then t else { t with unc := rangeSet s.all })
+            else if t.mfeat &&& fData == 0 then (n, t)
             else (n, { t with unc := union t.unc ids })
           { s with tags := tags, upd := union s.upd ids }) s
       let s := inherit s
@@ -497,7 +501,8 @@ def step (s : St) (e : Ev) (st : Started) : St × Res :=
     if typ == "" || sub == "" then (s, .err)
     else if f.err then (s, .err)
     else
-      let nt : Tag := { defn := defn, mainT := f.main, subT := f.sub, mfeat := f.mfeat, sfeat := f.sfeat, color := color, isMarkDef := isMark }
+      let nt : Tag := { defn := defn, mainT := f.main, subT := f.sub, mfeat := f.mfeat, sfeat := f.sfeat, color := color, isMarkDef := isMark,
+                        gen := s.ngen }
       if nt.refs.contains name then (s, .err)
       else if isMark && !f.idsok then (s, .err)
       else if (sget s.tags name).isSome then (s, .err)
@@ -506,7 +511,7 @@ def step (s : St) (e : Ev) (st : Started) : St × Res :=
         let (s, nt) :=
           if isMark then (s, { nt with mat := ofList f.ids })
           else (s, { nt with unc := rangeSet s.all })
-        let s := setTag s name nt
+        let s := setTag { s with ngen := s.ngen + 1 } name nt
         let s := if isMark then s else startTagging s st.tag
         let s := nt.refs.foldl (fun s r => addRefBy s r name) s
         (s, .ok)
@@ -524,7 +529,7 @@ def step (s : St) (e : Ev) (st : Started) : St × Res :=
           else if !t.convs.isEmpty &&
               (nt.mfeat &&& fData ≠ 0 || nt.sfeat &&& fData ≠ 0 || !nt.mainT.isEmpty || !nt.subT.isEmpty) then (s, .err)
           else
-          let nt := { nt with color := t.color, convs := t.convs, refBy := t.refBy, unc := rangeSet s.all }
+          let nt := { nt with color := t.color, convs := t.convs, refBy := t.refBy, gen := t.gen, unc := rangeSet s.all }
           let before := t.refs
           let after := nt.refs
           let s := (before.filter (fun r => !after.contains r)).foldl (fun s r => delRefBy s r name) s
